@@ -69,7 +69,7 @@ def cases(tier, seed, args):
             T = int(rng.integers(1, 12))
             out.append(dict(t='aligner', aligner=['dhtv', 'greedy', 'oracle', 'apply'][i % 4],
                             K=K, F=F, T=T, seed=int(rng.integers(1 << 30)),
-                            regime=['float', 'const', 'zero', 'tied', 'int'][(i // 4) % 5],
+                            regime=['float', 'const', 'zero', 'tied', 'int', 'unit', 'hugeclass'][(i // 4) % 7],
                             metric=['cos', 'euclidean', 'multiply'][(i // 20) % 3],
                             alg=['greedy', 'optimal'][(i // 60) % 2],
                             dtype=['float64', 'float32'][(i // 7) % 2]))
@@ -84,6 +84,11 @@ def cases(tier, seed, args):
                             alg=['greedy', 'optimal'][(i // 3) % 2],
                             glob=bool((i // 6) % 3 == 0),
                             regime=['normal', 'close', 'tiny', 'normal', 'rowtiny', 'offset'][(i // 18) % 6]))
+        # more than 256 bins (block-wise score computations have a remainder there)
+        for i in range(6 if q else 24):
+            out.append(dict(t='oracle_inv', K=2 + i % 2, F=[257, 301, 513][i % 3], T=int(rng.integers(3, 6)), seed=int(rng.integers(1 << 30)),
+                            metric=['euclidean', 'cos', 'multiply'][i % 3 if i >= 3 else 0], alg=['greedy', 'optimal'][(i // 3) % 2],
+                            glob=False, regime='normal'))
     if prop == 'C16plan':
         mx = int(args.get('max_stft', 24))
         for stft in range(2, mx + 1):
@@ -162,7 +167,7 @@ def cases(tier, seed, args):
             out.append(dict(t='dhtv_trace', K=int(rng.integers(1, 5)), F=int(rng.choice([1, 3, 5, 9, 13] if q else [1, 3, 5, 9, 17, 33])),
                             T=int(rng.integers(1, 9)), seed=int(rng.integers(1 << 30)),
                             metric=['cos', 'euclidean', 'multiply'][i % 3], alg=['greedy', 'optimal'][(i // 3) % 2],
-                            regime=['float', 'permuted', 'float', 'zero'][(i // 6) % 4]))
+                            regime=['float', 'permuted', 'tinyscale', 'zero', 'float', 'tinyscale'][(i // 6) % 6]))
     if prop == 'C16':
         n = 30 if q else 300
         for i in range(n):
@@ -256,6 +261,14 @@ def _mask(rng, K, F, T, regime, dtype):
         m = rng.random((1, F, T)).repeat(K, axis=0)
         if K > 1:
             m[0] = rng.random((F, T))
+    elif regime == 'unit':
+        # every class row of every bin already has norm exactly one (hard one-hot-over-time masks)
+        m = np.zeros((K, F, T))
+        m[np.arange(K)[:, None], np.arange(F)[None, :], rng.integers(0, T, size=(K, F))] = 1.0
+    elif regime == 'hugeclass':
+        # finite, badly scaled: one class around 1e155 next to ordinary ones (squares overflow in the distance / product scores)
+        m = rng.random((K, F, T))
+        m[rng.integers(K)] *= 1e155
     else:  # int valued
         m = rng.integers(0, 3, size=(K, F, T)).astype(float)
     return m.astype(dtype)
@@ -329,6 +342,10 @@ def _run_aligner(case):
     out = None
     if mapping is not None:
         out, exc = _call(full)
+    if case['regime'] == 'hugeclass' and exc == 'ValueError' and case['metric'] != 'cos':
+        # the squared entries overflow: the score matrix is not finite and the aligner rejects it explicitly (the property
+        # speaks about finite score matrices); whatever mapping IS returned for such a mask is checked like any other
+        return recs
     recs.append(_apply_record(before, mask, mapping, out, exc, fp, key))
     return recs
 
@@ -389,6 +406,14 @@ def _oracle_inv(case):
         field = np.repeat(rng.permutation(K)[:, None], F, axis=1)
     mask = pa.apply_mapping(ref, field)
     al = pa.OraclePermutationAlignment(similarity_metric=case['metric'], algorithm=case['alg'])
+    if case['seed'] % 3 == 0:
+        # block-wise evaluation: the SAME reference array object was used for another block and refilled in place
+        buf = ref[::-1].copy() * 1.5 + 0.25
+        arg0 = (mask.reshape(K, F * T), buf.reshape(K, F * T)) if case['glob'] else (mask, buf)
+        bview = arg0[1]
+        _call(pa.OraclePermutationAlignment(similarity_metric=case['metric'], algorithm=case['alg']).calculate_mapping, arg0[0], bview)
+        buf[...] = ref
+        ref = buf
     before = mask.copy()
     if case['glob']:
         m2, r2 = mask.reshape(K, F * T), ref.reshape(K, F * T)
@@ -542,6 +567,9 @@ def _dhtv_trace(case):
         ref = _structured(rng, K, F, T)
         field = np.stack([rng.permutation(K) for _ in range(F)], axis=1)
         mask = pa.apply_mapping(ref, field)
+    if case['regime'] == 'tinyscale':
+        # badly scaled mask (exact power-of-two scale) with classes of different strength and overlapping patterns
+        mask = rng.random((K, F, T)) * (0.2 + rng.random((K, 1, 1))) * 2.0 ** -60
     width = int(rng.integers(1, F + 1))
     start = int(rng.integers(0, F - width + 1))
     shift = int(rng.integers(1, width + 1))
